@@ -23,7 +23,8 @@ RULE = ("E1: every labelled undirected graph up to the node bound (connected one
         "fill-in edge, or >=2 cliques")
 BOUNDS = {"quick": "undirected graphs n<=4 (64 labelled, 38 connected) x 4 layouts x 2 card vectors; BNs: all DAGs n<=4 (JT on connected moral graphs); "
                    "n=5: the 728 connected graphs, edge layout, to_junction_tree only",
-          "thorough": "adds all 1024 labelled graphs on 5 nodes for triangulate/factor graph and 3 relabelings of every n=4 case"}
+          "thorough": "adds all 1024 labelled graphs on 5 nodes for triangulate/factor graph, 3 relabelings of every n=4 case, every conversion on the 728 connected "
+                      "5-node graphs x the 4 other layouts, all 29281 labelled 5-node DAGs as BN sources, clique trees of all 26704 connected 6-node graphs"}
 EXHAUSTIVE = {"quick": True, "thorough": True}
 ASSUMPTIONS = ["junction-tree targets need a connected graph (the library rejects others by design)", "string variable names"]
 
@@ -54,6 +55,20 @@ def groups(tier, seed):
         a5 = all_ugraphs(5, connected=False)
         for i in range(0, len(a5), 16):
             out.append({"kind": "tri5", "lo": i, "hi": min(i + 16, len(a5))})
+        # every conversion on the connected 5-node graphs with the other factor layouts
+        for lay in LAYOUTS:
+            if lay == "edge":
+                continue
+            for i in range(0, len(g5), 8):
+                out.append({"kind": "mn5full", "layout": lay, "lo": i, "hi": min(i + 8, len(g5))})
+        # every labelled 5-node DAG as a BN source
+        n5 = len(all_dags(5))
+        for i in range(0, n5, 100):
+            out.append({"kind": "bn", "n": 5, "lo": i, "hi": min(i + 100, n5)})
+        # clique trees of every connected 6-node graph (edge layout)
+        n6 = len(all_ugraphs(6))
+        for i in range(0, n6, 100):
+            out.append({"kind": "mn6", "lo": i, "hi": min(i + 100, n6)})
     return out
 
 
@@ -73,6 +88,16 @@ def run_group(g, tier):
             _g5["c"] = all_ugraphs(5)
         for i in range(g["lo"], g["hi"]):
             _mn(st, {"kind": "mn", "n": 5, "edges": [list(x) for x in _g5["c"][i]], "card": [2] * 5, "layout": "edge", "perm": None}, jt_only=True)
+    elif g["kind"] == "mn5full":
+        if "c" not in _g5:
+            _g5["c"] = all_ugraphs(5)
+        for i in range(g["lo"], g["hi"]):
+            _mn(st, {"kind": "mn", "n": 5, "edges": [list(x) for x in _g5["c"][i]], "card": [2, 3, 2, 2, 3], "layout": g["layout"], "perm": None})
+    elif g["kind"] == "mn6":
+        if "c6" not in _g5:
+            _g5["c6"] = all_ugraphs(6)
+        for i in range(g["lo"], g["hi"]):
+            _mn(st, {"kind": "mn", "n": 6, "edges": [list(x) for x in _g5["c6"][i]], "card": [2] * 6, "layout": "edge", "perm": None}, jt_only=True)
     else:
         if "a" not in _g5:
             _g5["a"] = all_ugraphs(5, connected=False)
@@ -300,7 +325,7 @@ def _bn(st, g):
     gr = G(n, edges)
     moral = gr.moral_edges()
     conn = is_connected(n, [tuple(e) for e in moral])
-    for cv in ((2,) * n, (3, 2, 2, 3)[:n]):
+    for cv in ((2,) * n, (3, 2, 2, 3, 2)[:n]):
         ref = bn_from_desc({"n": n, "edges": g["edges"], "card": list(cv), "cols": {"fp": 0}})
         lab = Labeling(n, ref.card, "str", None, "str")
         model = make_bn(ref, lab)
